@@ -16,6 +16,7 @@ package internal
 
 import (
 	"cmp"
+	enchex "encoding/hex"
 	"hash/fnv"
 	"iter"
 	"maps"
@@ -24,6 +25,7 @@ import (
 	"strconv"
 	"strings"
 	"sync"
+	"unicode/utf8"
 	"unique"
 )
 
@@ -102,6 +104,18 @@ func hasNormalizationHeader(m map[string]struct{}, field string) bool {
 // normalizeHeaderValue normalizes a header value according to the rules defined
 // in RFC 9111 §4.1. Assumes a canonicalized header field name.
 func normalizeHeaderValue(field, value string) string {
+	v := normalizeHeaderValueBytes(field, value)
+	if utf8.ValidString(v) {
+		return v
+	}
+	// Field values may contain bytes that are not UTF-8 (obs-text, RFC 9110
+	// §5.5), but the variant index is stored as JSON, which replaces them: the
+	// value read back would never equal the one computed from a request again.
+	// NUL cannot occur in a field value, so the prefix is unambiguous.
+	return "\x00" + enchex.EncodeToString([]byte(v))
+}
+
+func normalizeHeaderValueBytes(field, value string) string {
 	if value == "" {
 		return ""
 	}
